@@ -1,6 +1,5 @@
 //! Executes one C19 case inside the simulator and records the history.
 
-use std::cell::RefCell;
 use std::path::PathBuf;
 use std::sync::Arc;
 
@@ -58,16 +57,17 @@ pub struct RunState {
     pub harness_error: Option<String>,
 }
 
-thread_local! {
-    static RUN: RefCell<Option<RunState>> = const { RefCell::new(None) };
-}
+// Only the simulated thread holding the baton runs, so this is never
+// contended.
+static RUN: std::sync::Mutex<Option<RunState>> = std::sync::Mutex::new(None);
 
 pub fn with_run<R>(f: impl FnOnce(&mut RunState) -> R) -> R {
-    RUN.with(|r| f(r.borrow_mut().as_mut().expect("no run state")))
+    let mut g = RUN.lock().unwrap_or_else(|e| e.into_inner());
+    f(g.as_mut().expect("no run state"))
 }
 
 pub fn take_run() -> Option<RunState> {
-    RUN.with(|r| r.borrow_mut().take())
+    RUN.lock().unwrap_or_else(|e| e.into_inner()).take()
 }
 
 struct Handle {
@@ -710,15 +710,13 @@ fn setup_disk(case: &Case) -> Result<(), String> {
 pub fn run_case(case: Arc<Case>, root: PathBuf) {
     let mut disk = Disk::new(root, case.backend, case.universe.clone());
     disk.alias = case.alias.map(|a| a.0);
-    RUN.with(|r| {
-        *r.borrow_mut() = Some(RunState {
-            case: case.clone(),
-            disk,
-            ops: vec![],
-            next_cache: 0,
-            fault_steps: vec![],
-            harness_error: None,
-        })
+    *RUN.lock().unwrap_or_else(|e| e.into_inner()) = Some(RunState {
+        case: case.clone(),
+        disk,
+        ops: vec![],
+        next_cache: 0,
+        fault_steps: vec![],
+        harness_error: None,
     });
     sim::with_rt(|rt| rt.mono = case.mono);
     if case.io.rate > 0 {
@@ -740,10 +738,10 @@ pub fn run_case(case: Arc<Case>, root: PathBuf) {
             let ops = ops.clone();
             let h = Some(Handle { db: h0.db.clone(), cache: h0.cache });
             let t = (i + 1) as u8;
-            joins.push(shuttle::thread::spawn(move || thread_main(t, ops, h)));
+            joins.push(sim::spawn(move || thread_main(t, ops, h)));
         }
         for j in joins {
-            let _ = j.join();
+            sim::join(j);
         }
         if sim::with_rt(|rt| rt.abort.is_some()) {
             return;
